@@ -302,6 +302,8 @@ impl<H: Hal, T: Transport, const QUEUE_SIZE: usize> VirtIONetRaw<H, T, QUEUE_SIZ
         // until calling `receive_complete` when the request is complete.
         let token = unsafe { self.receive_begin(rx_buf)? };
         while self.poll_receive().is_none() {
+            #[cfg(virtio_drivers_verif)]
+            crate::verif::spin(crate::verif::SPIN_NET_RECEIVE_WAIT);
             core::hint::spin_loop();
         }
         // SAFETY: This `rx_buf` is the same one passed to `receive_begin`.
